@@ -100,7 +100,7 @@ func Run(c *vf.Check) {
 		}
 	}
 	vf.Parallel(len(jobs), func(i int) { jobs[i]() })
-	c.Finish("engine E: ECIES on {Ed25519, P-256, QR512, bn256.G1, kilic.G1}, IBE CCA on both assignments / CPA on the suites with the needed hash-to-group, anonymous-set encryption on {Ed25519, P-256, bn256.G1}: every message length 0..80 and {127,128,129,255,256,4095,4096} (IBE: every length 0..2*hash size+2) x 4 plaintext patterns; round trip = plaintext, or refusal at encryption; wrong key / identity / recipient index => error (authenticated schemes; IBE-CCA: judged for the empty message - the known finding - and from 8 bytes on, in between the outcome depends on randomness kyber draws itself with probability 2^(-8 len)); one bit per byte of the ciphertext flipped (thorough: every bit for lengths <= 80) and every truncation => error, never a panic, never another plaintext; no aligned 16-byte plaintext window at the same offset of the ciphertext body; ECIES with the hash option nil / sha256.New / sha512.New on either side on every group with an implicit generator (17): decrypts under every spelling of the same hash only; CPA bodies extended in transit never panic; anonymous-set messages of 65535, 65536, 65537 and 200001 bytes; anonymous-set: sizes 1..6 on Ed25519, 1..4 on the others (thorough 1..6) x every recipient index. "+
+	c.Finish("engine E: ECIES on {Ed25519, P-256, QR512, bn256.G1, kilic.G1}, IBE CCA on both assignments / CPA on the suites with the needed hash-to-group, anonymous-set encryption on {Ed25519, P-256, bn256.G1}: every message length 0..80 and {127,128,129,255,256,4095,4096} (IBE: every length 0..2*hash size+2) x 4 plaintext patterns; round trip = plaintext, or refusal at encryption; wrong key / identity / recipient index => error (authenticated schemes; IBE-CCA: judged for the empty message - the known finding - and from 8 bytes on, in between the outcome depends on randomness kyber draws itself with probability 2^(-8 len)); one bit per byte of the ciphertext flipped (thorough: every bit for lengths <= 80) and every truncation => error, never a panic, never another plaintext; no aligned 16-byte plaintext window at the same offset of the ciphertext body; ECIES with the hash option nil / sha256.New / sha512.New on either side on every group with an implicit generator (17): decrypts under every spelling of the same hash only; CPA bodies extended in transit never panic; anonymous-set body altered with the tag recomputed without any key (open known finding); anonymous-set messages of 65535, 65536, 65537 and 200001 bytes; anonymous-set: sizes 1..6 on Ed25519, 1..4 on the others (thorough 1..6) x every recipient index. "+
 		"non-trivial = non-empty messages; distinct by (scheme, group, length, pattern, mutation class)",
 		[]string{"ECIES, IBE and anon.Encrypt draw from crypto/rand inside kyber: only verdicts and plaintexts are compared, never ciphertext bytes", "every Decrypt gets its own copy of the ciphertext"}, nil)
 }
@@ -606,6 +606,21 @@ func runAnon(c *vf.Check, sname string, n int) {
 				if out, err := anon.Decrypt(s, append([]byte{}, ct...), set, mine, outsider); err == nil {
 					x.Failf(pk+"/wrong-key-accepted", "%s: an outsider's key at index %d decrypts without error (%d bytes)", id, mine, len(out))
 				}
+			}
+			// forging strategy: the body altered and the 16-byte tag recomputed the way anyone can who knows the suite
+			// (the tag is the suite's XOF seeded with the ciphertext body): an authenticated scheme must refuse
+			if ml > 0 && len(ct) >= hdr+ml+16 {
+				mut := append([]byte{}, ct...)
+				mut[hdr+ml/2] ^= 0x20
+				tag := make([]byte, 16)
+				_, _ = s.XOF(mut[hdr:hdr+ml]).Read(tag)
+				copy(mut[len(mut)-16:], tag)
+				guard(x, pk+"/panic", id+" body altered, tag recomputed", func() {
+					c.Eval(1)
+					if out, err := anon.Decrypt(s, mut, set, n-1, privs[n-1]); err == nil && !bytes.Equal(out, msg) {
+						x.Failf(pk+"/body-altered-tag-recomputed", "%s: with one body bit flipped and the tag recomputed as XOF(body) - no key needed - Decrypt returns a different plaintext without error", id)
+					}
+				})
 			}
 			mine := n - 1
 			type flip struct{ i, k, j int } // j >= 0: the same bit of byte j is flipped as well
